@@ -88,6 +88,10 @@ func (p *Prog) verifyFunc(fn *ssa.Function, ct *Contract) (fx *Fx, err error) {
 	}
 	for g, srt := range p.GhostDecls {
 		st.Ghost[g] = Sym("G!"+g+"!0", srt)
+		if p.GhostMono[g] && srt.K == SBV && srt.W == 64 {
+			// event counters: fewer than 2^62 events in any execution (so that +1 never wraps)
+			fx.assumeGlobal(BVOp("bvult", st.Ghost[g], BVConst(1<<62, 64)))
+		}
 	}
 	fr := &Frame{Fn: fn, Vals: map[ssa.Value]Val{}}
 	st.Frames = []*Frame{fr}
